@@ -250,7 +250,11 @@ def compute_cache_key(definition_hash: str, inputs: dict[str, Any]) -> str:
     """
     try:
         sorted_items = sorted(inputs.items())
-        inputs_bytes = pickle.dumps(sorted_items)
+        # Serialize each argument on its own: pickling the whole list would encode
+        # object sharing BETWEEN arguments (pickle memo), so equal arguments that
+        # happen to share a sub-object (or no longer do, after a cache round trip)
+        # would get different keys.
+        inputs_bytes = b"".join(pickle.dumps(item) for item in sorted_items)
     except (pickle.PicklingError, TypeError, AttributeError) as exc:
         logger.warning("Cache miss: inputs not picklable (%s)", exc)
         return ""
